@@ -2,6 +2,7 @@ package harness
 
 import (
 	"fmt"
+	"math"
 	"sort"
 	"strings"
 	"time"
@@ -121,9 +122,40 @@ func riskyConv(b *Bucket, sent []Col) bool {
 	return false
 }
 
+func boolInt(b bool) int {
+	if b {
+		return 1
+	}
+	return 0
+}
+
+// definedConv: Go (and so "standard numeric conversion") defines every
+// integer->integer, integer->float and float->float conversion; float->integer
+// only when the truncated value fits the integer type.
+func definedConv(v interface{}, typ string) bool {
+	var f float64
+	switch x := v.(type) {
+	case float32:
+		f = float64(x)
+	case float64:
+		f = x
+	default:
+		return true
+	}
+	if typ == "f4" || typ == "f8" {
+		return true
+	}
+	bits := map[string]float64{"i1": 8, "i2": 16, "i4": 32, "i8": 64, "u1": 8, "u2": 16, "u4": 32, "u8": 64}[typ]
+	if typ[0] == 'u' {
+		return f > -1 && f < math.Pow(2, bits)
+	}
+	return f > -math.Pow(2, bits-1)-1 && f < math.Pow(2, bits-1)
+}
+
 func c14Engine() *Engine {
 	return &Engine{Name: "MODEL", Run: func(seed uint64, tier string, res *Result) {
 		r := simrt.NewRand(seed ^ 0x1414)
+		wideValues = r.Pct(70)
 		c := &GenCfg{TFs: []string{"1Min", "5Min", "1H", "1H", "4H", "1D", "15Min"}, MinBuckets: 2, MaxBuckets: 3, VarPct: 35,
 			MinOps: 1, MaxOps: 3, MaxRows: 4, SleepPct: 0, PreCreate: true, AvoidKnown: true, AllTypes: true,
 			Years: []int{2021, 2022}, BgSyncPct: 60, MaxSleep: time.Second, HotPct: 50, UnsortedPct: 0}
@@ -225,7 +257,8 @@ func c14Engine() *Engine {
 			}
 			sc = scen{"reordered-columns", &WOp{Kind: "write", W: []*WriteReq{{Variable: tgt.Variable, Parts: []*BucketWrite{p}}}}, false}
 		case 4: // retyped column: same names, other numeric type -> accepted, converted
-			p := mkPart(tgt, 3)
+			p := mkPart(tgt, 3+3*boolInt(wideValues))
+			p.SentNative = r.Pct(60)
 			idc := tgt.idCol()
 			cand := []int{}
 			for j := range tgt.Cols {
@@ -234,13 +267,37 @@ func c14Engine() *Engine {
 				}
 			}
 			rt := -1
+			sentTyp := ""
 			if len(cand) > 0 {
 				rt = cand[r.Intn(len(cand))]
+				// any other numeric type; records whose value would make either
+				// conversion step undefined (float out of the integer's range) are
+				// not sent
+				bt := tgt.Cols[rt].Typ
+				for try := 0; try < 12 && sentTyp == ""; try++ {
+					alt := allTypes[r.Intn(len(allTypes))]
+					if alt == bt {
+						continue
+					}
+					var keep []Rec
+					for _, rec := range p.Recs {
+						v := bucketColVal(tgt, rec.ID, rt, idc)
+						if (p.SentNative || definedConv(v, alt)) && definedConv(p.sentVal(rec.ID, Col{Name: tgt.Cols[rt].Name, Typ: alt}, rt, idc), bt) {
+							keep = append(keep, rec)
+						}
+					}
+					if len(keep) > 0 {
+						sentTyp = alt
+						p.Recs = keep
+					}
+				}
+				if sentTyp == "" {
+					rt = -1
+				}
 			}
 			for j, cc := range tgt.Cols {
 				if j == rt {
-					alts := retypeTo[cc.Typ]
-					cc.Typ = alts[r.Intn(len(alts))]
+					cc.Typ = sentTyp
 				}
 				p.Cols = append(p.Cols, cc)
 				p.SrcIdx = append(p.SrcIdx, j)
@@ -251,9 +308,9 @@ func c14Engine() *Engine {
 					tgt.Overrides = map[int64]map[string]interface{}{}
 				}
 				for _, rec := range p.Recs {
-					v := bucketColVal(tgt, rec.ID, rt, idc)
-					tgt.Overrides[rec.ID] = map[string]interface{}{tgt.Cols[rt].Name: Convert(Convert(v, p.Cols[rt].Typ), tgt.Cols[rt].Typ)}
+					tgt.Overrides[rec.ID] = map[string]interface{}{tgt.Cols[rt].Name: Convert(p.sentVal(rec.ID, p.Cols[rt], rt, idc), tgt.Cols[rt].Typ)}
 				}
+				res.AddDistinct(fmt.Sprintf("retype/%s->%s/native=%v/wide=%v", sentTyp, tgt.Cols[rt].Typ, p.SentNative, wideValues))
 			}
 			sc = scen{"retyped-column", &WOp{Kind: "write", W: []*WriteReq{{Variable: tgt.Variable, Parts: []*BucketWrite{p}}}}, false}
 		default: // multi-bucket dataset in which one bucket does not match
